@@ -208,7 +208,7 @@ class SelectorMap:
 
     start = None
     for i, component in enumerate(reversed(selector_components)):
-      if len(node) == 1:
+      if i and len(node) == 1:
         if start is None:
           start = -i  # Negative index, since we're iterating in reverse.
       else:
